@@ -425,7 +425,7 @@ func pointsCases(r *rand.Rand, sh *Sharder, doc *CasesDoc, id *int, n int, repla
 		if len(oracles) == 0 {
 			oracles = []string{"true"}
 		}
-		c.Printf("Eval vm_compute in (%d%%nat, %s, %s, @nil nat).\n", *id, strings.Join(checks, " && "), strings.Join(oracles, " && "))
+		c.Printf("Eval vm_compute in (\"%d\"%%string, %s, %s, @nil nat).\n", *id, strings.Join(checks, " && "), strings.Join(oracles, " && "))
 		key, _ := json.Marshal(pc)
 		doc.Cases = append(doc.Cases, CaseInfo{ID: *id, Kind: "points", Input: pc, Observed: obs, Nontrivial: len(points) >= 2 || fcls != 0, Key: string(key)})
 		*id++
